@@ -157,7 +157,7 @@ func cmdCluster(s *Server, c *conn, req *Req) (Reply, action) {
 		if !ok || sl < 0 || sl >= NumSlots {
 			return Err("ERR Invalid slot"), actNone
 		}
-		return int64(len((&Topo{cl}).KeysInSlot(n.idx, int(sl)))), actNone
+		return int64(len((&Topo{cl: cl}).KeysInSlot(n.idx, int(sl)))), actNone
 	case "GETKEYSINSLOT":
 		if len(req.Args) != 3 {
 			break
@@ -168,7 +168,7 @@ func cmdCluster(s *Server, c *conn, req *Req) (Reply, action) {
 			return Err("ERR Invalid slot or number of keys"), actNone
 		}
 		out := []Reply{}
-		for _, k := range (&Topo{cl}).KeysInSlot(n.idx, int(sl)) {
+		for _, k := range (&Topo{cl: cl}).KeysInSlot(n.idx, int(sl)) {
 			if int64(len(out)) >= cnt {
 				break
 			}
@@ -185,7 +185,7 @@ func cmdCluster(s *Server, c *conn, req *Req) (Reply, action) {
 			return Err("ERR Invalid or out of range slot"), actNone
 		}
 		slot := int(sl)
-		t := &Topo{cl}
+		t := &Topo{cl: cl}
 		action := up(req.Args[2])
 		if action == "STABLE" {
 			delete(n.migrating, slot)
